@@ -78,6 +78,8 @@ def run(ctx):
         "hashicorp/golang-lru behaves like the recency-list model of Model/Apq.lean (validated by the cache get/add events of every case)",
     ]
     ctx.assumptions.append(
+        "token limit: the number of tokens gqlparser consumes for a text (`need`) is obtained from gqlparser itself (smallest limit that parses like no limit); the model treats a text whose need exceeds the configured limit as having no document (World.withLimit)")
+    ctx.assumptions.append(
         "transports: every function of graphql/handler/transport that calls CreateOperationContext is driven (POST, GET, multipart form, urlencoded form, application/graphql, multipart/mixed, SSE in-process with a ResponseRecorder; websocket over a real loopback connection, one connection per operation, both sub-protocols); what the client received is read back as the list of answers, the closing frame of a stream as the handler's nil")
     ok_steps = ctx.extract("PipelineSteps")
     ok_gates = ctx.extract("TransportGates")
@@ -219,7 +221,7 @@ def run(ctx):
         "window_tries": wkv,
         "race_detector_reports": len(race_reports),
         "distinct_nontrivial": len(nontriv),
-        "rule": "sessions = (cache in none/map/lru1/lru2/lru3/lru1000) x disableSuggestion x random list of 0-11 extensions each implementing a random non-empty subset of the 6 hook interfaces (extension ids divisible by 3 register their rejection codes as protocol-kind errors, the others stay user-kind) x route (executor driven like a transport / handler.Server with all transports, per request one of post, get, multipart form, urlencoded form, application/graphql, SSE, multipart/mixed, websocket graphql-ws, websocket graphql-transport-ws); per session 3-12 requests over a pool of 2-5 texts (valid: anonymous, named, multi-operation, variables, subscription; 16 invalidation classes) with operation names (right/empty/unknown), variables (valid/missing/wrong type/null/extra), mutator rejections, query rewrites, blocking operation interceptors, Exec set-up errors, 0-3 subscription events, 1-5 polls; plus 21 directed sessions and 18 directed transport sessions (every transport x {none, lru2} x 24 requests: each kind of rejection incl. protocol-kind and user-kind mutator rejections of queries, mutations and subscriptions). Non-trivial = distinct (session, request) that is rejected by some gate, hits the cache, is blocked or fails in Exec",
+        "rule": "sessions = (cache in none/map/lru1/lru2/lru3/lru1000) x disableSuggestion x random list of 0-11 extensions each implementing a random non-empty subset of the 6 hook interfaces (extension ids divisible by 3 register their rejection codes as protocol-kind errors, the others stay user-kind) x route (executor driven like a transport / handler.Server with all transports, per request one of post, get, multipart form, urlencoded form, application/graphql, SSE, multipart/mixed, websocket graphql-ws, websocket graphql-transport-ws); per session 3-12 requests over a pool of 2-5 texts (valid: anonymous, named, multi-operation, variables, subscription; 16 invalidation classes) with operation names (right/empty/unknown), variables (valid/missing/wrong type/null/extra), mutator rejections, query rewrites, blocking operation interceptors, Exec set-up errors, 0-3 subscription events, 1-5 polls; with probability 1/2 the pool also holds 1-3 near-key siblings of one of its texts (same text except for the kind of one separator incl. NBSP/VT/FF/U+2028/U+0085/BOM, separators at the edges, a # comment and what terminates it, white space inside a (block) string, letter case, the tail; validity decided by gqlparser), 40% of the sessions run with SetParserTokenLimit (1,2,3,5,1000 or the token need of a pool text -3..+2); plus 60 directed near-key sessions (6 families x 5 caches x direct/server: base, sibling, base, ...), 48 directed token-limit sessions (8 limits x none/map/lru2 x direct/server), 21 directed sessions and 18 directed transport sessions (every transport x {none, lru2} x 24 requests: each kind of rejection incl. protocol-kind and user-kind mutator rejections of queries, mutations and subscriptions). Non-trivial = distinct (session, request) that is rejected by some gate, hits the cache, is blocked or fails in Exec",
         "input_distribution": dict(branch),
         "generator_classes": dict(classes),
         "routes": dict(routes),
